@@ -129,6 +129,13 @@ def k_long(ctx, a, b, w):
     want = np.array([[e, 0.0], [0.0, e2]])
     if not np.array_equal(M, want):
         ctx.violation("metric:long:wrong-distance", f"long strings (len {len(a)}, {len(b)}): wrap-around or wrong distance", M, want, {"weights": w})
+    # each direction on its own: all anchors short and a long comparison string, and the other way round
+    for A_, B_, w_ in (([a], [b], e), ([b], [a], e2), ([a, a], [b], e), ([b], [a, a, a], e2)):
+        o1 = ctx.call(m.calc_cdist_matrix, list(A_), list(B_))
+        ctx.count("long_one_sided_calls")
+        if not o1.ok or not np.array_equal(np.asarray(o1.value).astype(float), np.full((len(A_), len(B_)), float(w_))):
+            ctx.violation("metric:long:one-sided:wrong-distance", f"anchors of length {len(A_[0])} against comparisons of length {len(B_[0])}: wrong distance",
+                          o1.describe(), w_, {"weights": w})
     pv = ctx.call(m.calc_pdist_vector, [a, b])
     if not pv.ok or float(np.asarray(pv.value)[0]) != e:
         ctx.violation("metric:long:pdist", "pdist of two long strings is wrong", pv.describe(), e)
